@@ -38,6 +38,8 @@ static const char *const fmts[] = {
 };
 #define NFMT 8
 static const char *const strs[] = { "alpha", "", "a somewhat longer string argument", "%d" };
+/* string arguments of every length 0..99, so formatted lines cluster around 60-100 characters */
+static const char longstr[] = "0123456789abcdefghijklmnopqrstuvwxyzABCDEFGHIJKLMNOPQRSTUVWXYZ0123456789abcdefghijklmnopqrstuvwxyz-+";
 
 typedef struct {
 	uint8_t fmt;
@@ -73,8 +75,9 @@ static void gen_entry(ent_t *e)
 	case 1: e->a[0] = total; break;
 	case 2: e->a[0] = sim_choose(1000); e->a[1] = total; break;
 	case 3: e->a[0] = total; e->a[1] = sim_choose(7); e->a[2] = ~(uintptr_t)total; break;
-	case 4: e->a[0] = (uintptr_t)strs[sim_choose(4)]; break;
-	case 5: e->a[0] = (uintptr_t)strs[sim_choose(4)]; e->a[1] = total; e->a[2] = sim_choose(65536); break;
+	case 4: e->a[0] = sim_choose(3) ? (uintptr_t)strs[sim_choose(4)] : (uintptr_t)(longstr + sim_choose(40)); break;
+	case 5: e->a[0] = sim_choose(3) ? (uintptr_t)strs[sim_choose(4)] : (uintptr_t)(longstr + sim_choose(60));
+		e->a[1] = total; e->a[2] = sim_choose(65536); break;
 	}
 }
 
@@ -118,7 +121,7 @@ static void do_log(bool nice)
 
 static void check_line(int k, bool inject_alloc_fail)
 {
-	char want[256];
+	char want[320];
 	const ent_t *e = m_line(k);
 	if (k < 0)
 		sim_probe(P_NEG_INDEX);
@@ -161,7 +164,7 @@ static void check_line(int k, bool inject_alloc_fail)
 
 static void check_dump(bool faulty_sink)
 {
-	static char want[256 * 96];
+	static char want[256 * 160];
 	size_t wl = 0;
 	for (int k = 0; m_line(k); k++) {
 		fmt_entry(want + wl, sizeof(want) - wl, m_line(k));
